@@ -283,8 +283,10 @@ Qed.
 
 Lemma quiet_altsvc f o s : quiet (api_advertise_alt_svc f o s).
 Proof.
-  unfold api_advertise_alt_svc. destruct o as [og|]; destruct s as [sid|];
-    first [apply quiet_crash | apply quiet_bind_l; apply quiet_cfsm; exact I].
+  unfold api_advertise_alt_svc. destruct o as [og|]; destruct s as [sid|]; try apply quiet_crash;
+    (apply quiet_bind_r; [keep_leaf|intros c0]; apply quiet_bind_r; [|intros _];
+     [destruct (client c0); split; first [apply pres_lift_res | apply pres_ret | pgo]|];
+     apply quiet_bind_l; apply quiet_cfsm; exact I).
 Qed.
 
 Lemma quiet_send_headers sid hs L es pw pd pe : quiet (api_send_headers sid hs L es pw pd pe).
